@@ -8,6 +8,17 @@ cd $T || exit 2
 git checkout -q -- slog; rm -f slog/zz_*demo*_test.go slog/zz_seed*_test.go
 git apply _out/$k/patch.diff || { echo "PATCH DOES NOT APPLY"; exit 2; }
 demo=$(ls _out/$k/*_test.go 2>/dev/null | head -1)
+if [ -z "$demo" ] && [ -d _out/$k/demo ]; then
+  # external demo module (replace => this worktree): a test package, or a main program
+  if ls _out/$k/demo/*_test.go >/dev/null 2>&1; then DR="go test -vet=off -count=1 ./..."; else DR="go run ."; fi
+  (cd _out/$k/demo && $DR >/tmp/seed_with.txt 2>&1); w=$?
+  (go test -vet=off -count=1 ./... >/tmp/seed_suite.txt 2>&1 && cd tests && go test -vet=off -count=1 ./... >>/tmp/seed_suite.txt 2>&1); s=$?
+  git checkout -q -- slog
+  (cd _out/$k/demo && $DR >/tmp/seed_without.txt 2>&1); wo=$?
+  echo "external-demo demo_with_change_exit=$w suite_with_change_exit=$s demo_without_change_exit=$wo"
+  git status --short | grep -v _out
+  exit 0
+fi
 if [ -n "$demo" ]; then cp $demo slog/zz_demo_seed_test.go; fi
 if [ -n "$demo" ]; then (cd slog && go test -vet=off -count=1 -run "$pat" . >/tmp/seed_with.txt 2>&1); w=$?; else w=99; fi
 rm -f slog/zz_demo_seed_test.go
